@@ -6,6 +6,7 @@
 import ChessVerif.Model.Polyglot
 import ChessVerif.Spec.Keys
 import ChessVerif.Lemmas.Key
+import ChessVerif.Lemmas.Bridge
 namespace Chess.Props
 
 def tablesOK : Bool :=
@@ -105,12 +106,99 @@ theorem C18_key_noep (p : Position) (hl : p.board.length = 64) (hp : ∀ s, s < 
   rw [c0, c1, c2, c3, C18_tables.2.2.2]
   simp [Spec.polyEpApplies, W_OO, W_OOO, B_OO, B_OOO]
 
-/-- the full statement incl. the en-passant clause (kept visible): the ep random is XOR-ed exactly when a pawn of the
-    side to move stands beside the pushed pawn.  The bit-level adjacency test (`pawn_attacks(ep, !stm) & pawns(stm)`)
-    versus the coordinate definition is decided by the correspondence on all ep situations (left/right/both/none, a- and h-file). -/
-def C18_Statement : Prop :=
-  ∀ (p : Position), p.board.length = 64 → (∀ s, s < 64 → p.board.getD s 0 ≤ 12) → p.side ≤ 1 →
-    (p.ep = 64 ∨ (16 ≤ p.ep ∧ p.ep < 48)) →
-    polyKey p = Spec.polyKey ⟨p.board, p.side, p.castling, p.ep, p.halfmove, 1⟩
+/-- for every ep square on ranks 3..6 and either side: the attack set of the ep square seen from the other side is the
+    pair of squares beside the pushed pawn (clipped at the board edge) -/
+def epAttackersOK : Bool :=
+  (List.range 32).all fun i => (List.range 2).all fun side =>
+    let ep := 16 + i
+    let pushed := if side = 0 then ep - 8 else ep + 8
+    pawnAttacks (1 - side) (sqBB ep) ==
+      ((if ep % 8 ≠ 0 then sqBB (pushed - 1) else 0) ||| (if ep % 8 ≠ 7 then sqBB (pushed + 1) else 0))
+
+theorem epAttackersOK_true : epAttackersOK = true := by decide +kernel
+
+theorem epAttackers (ep side : Nat) (h1 : 16 ≤ ep) (h2 : ep < 48) (hs : side ≤ 1) :
+    pawnAttacks (1 - side) (sqBB ep) =
+      ((if ep % 8 ≠ 0 then sqBB ((if side = 0 then ep - 8 else ep + 8) - 1) else 0) |||
+       (if ep % 8 ≠ 7 then sqBB ((if side = 0 then ep - 8 else ep + 8) + 1) else 0)) := by
+  have h := epAttackersOK_true
+  simp only [epAttackersOK, List.all_eq_true, List.mem_range, beq_iff_eq] at h
+  have := h (ep - 16) (by omega) side (by omega)
+  have e : 16 + (ep - 16) = ep := by omega
+  rw [e] at this
+  exact this
+
+/-- the engine's bit-level adjacency test is the coordinate definition of "a pawn of the side to move stands beside the
+    pushed pawn" -/
+theorem epClause (board : List Nat) (side ep : Nat) (hl : board.length = 64) (hs : side ≤ 1) (h1 : 16 ≤ ep) (h2 : ep < 48) :
+    ((pawnAttacks (1 - side) (sqBB ep) &&& bbOfPiece board (mkPiece side PAWN)) ≠ 0) ↔
+      Spec.polyEpApplies ⟨board, side, 0, ep, 0, 1⟩ = true := by
+  rw [epAttackers ep side h1 h2 hs, or_and_ne_zero]
+  generalize hpu : (if side = 0 then ep - 8 else ep + 8) = pushed
+  have hp8 : 8 ≤ pushed ∧ pushed < 56 ∧ pushed % 8 = ep % 8 := by
+    rw [← hpu]; split <;> omega
+  have hpawn : mkPiece side PAWN = Spec.mkPc side 1 := by simp [mkPiece, Spec.mkPc, PAWN]
+  -- left neighbour
+  have left : ((if ep % 8 ≠ 0 then sqBB (pushed - 1) else 0) &&& bbOfPiece board (mkPiece side PAWN) ≠ 0) ↔
+      (ep % 8 ≠ 0 ∧ board.getD (pushed - 1) 0 = mkPiece side PAWN) := by
+    by_cases h : ep % 8 ≠ 0
+    · rw [if_pos h, sqBB_and_ne_zero, bbOfPiece_testBit]
+      simp [hl, h]; omega
+    · rw [if_neg h]; simp [h]
+  have right : ((if ep % 8 ≠ 7 then sqBB (pushed + 1) else 0) &&& bbOfPiece board (mkPiece side PAWN) ≠ 0) ↔
+      (ep % 8 ≠ 7 ∧ board.getD (pushed + 1) 0 = mkPiece side PAWN) := by
+    by_cases h : ep % 8 ≠ 7
+    · rw [if_pos h, sqBB_and_ne_zero, bbOfPiece_testBit]
+      simp [hl, h]; omega
+    · rw [if_neg h]; simp [h]
+  rw [left, right]
+  -- the coordinate side
+  unfold Spec.polyEpApplies
+  simp only [hpu, Bool.and_eq_true, decide_eq_true_eq, List.any_cons, List.any_nil, Bool.or_false, Bool.or_eq_true]
+  have hne : ep ≠ 64 := by omega
+  have sqL : ep % 8 ≠ 0 → Spec.sqOf (Spec.fileI pushed - 1) (Spec.rankI pushed) = pushed - 1 := by
+    intro h; unfold Spec.sqOf Spec.fileI Spec.rankI; omega
+  have sqR : Spec.sqOf (Spec.fileI pushed + 1) (Spec.rankI pushed) = pushed + 1 := by
+    unfold Spec.sqOf Spec.fileI Spec.rankI; omega
+  have obL : Spec.onBoard (Spec.fileI pushed - 1) (Spec.rankI pushed) = true ↔ ep % 8 ≠ 0 := by
+    unfold Spec.onBoard Spec.fileI Spec.rankI
+    simp only [Bool.and_eq_true, decide_eq_true_eq]; omega
+  have obR : Spec.onBoard (Spec.fileI pushed + 1) (Spec.rankI pushed) = true ↔ ep % 8 ≠ 7 := by
+    unfold Spec.onBoard Spec.fileI Spec.rankI
+    simp only [Bool.and_eq_true, decide_eq_true_eq]; omega
+  rw [obL, obR, sqR, ← hpawn]
+  constructor
+  · rintro (⟨a, b⟩ | ⟨a, b⟩)
+    · exact ⟨hne, Or.inl ⟨a, by rw [sqL a]; exact b⟩⟩
+    · exact ⟨hne, Or.inr ⟨a, b⟩⟩
+  · rintro ⟨_, (⟨a, b⟩ | ⟨a, b⟩)⟩
+    · exact Or.inl ⟨a, by rw [sqL a] at b; exact b⟩
+    · exact Or.inr ⟨a, b⟩
+
+/-- C18 (key, full): for every position — with or without an en-passant square — the engine's book key equals the
+    published definition: pieces, the four castling rights, the en-passant file exactly when a pawn of the side to move
+    stands beside the pushed pawn, and the turn -/
+theorem C18_key (p : Position) (hl : p.board.length = 64) (hp : ∀ s, s < 64 → p.board.getD s 0 ≤ 12) (hs : p.side ≤ 1)
+    (he : p.ep = 64 ∨ (16 ≤ p.ep ∧ p.ep < 48)) :
+    polyKey p = Spec.polyKey ⟨p.board, p.side, p.castling, p.ep, p.halfmove, 1⟩ := by
+  rcases he with he | he
+  · exact C18_key_noep p hl hp he
+  · have hne : p.ep ≠ 64 := by omega
+    have hcl := epClause p.board p.side p.ep hl hs he.1 he.2
+    have happ : Spec.polyEpApplies ⟨p.board, p.side, p.castling, p.ep, p.halfmove, 1⟩ = Spec.polyEpApplies ⟨p.board, p.side, 0, p.ep, 0, 1⟩ := rfl
+    unfold polyKey Spec.polyKey
+    simp only []
+    rw [C18_pieces p.board hl hp, happ]
+    have hc := C18_tables.2.1
+    have c0 := hc 0 (by decide); have c1 := hc 1 (by decide); have c2 := hc 2 (by decide); have c3 := hc 3 (by decide)
+    simp only [Nat.add_zero] at c0
+    have hef := C18_tables.2.2.1 (fileOf p.ep) (by unfold fileOf; omega)
+    rw [c0, c1, c2, c3, C18_tables.2.2.2, hef, if_pos hne]
+    by_cases hx : (pawnAttacks (1 - p.side) (sqBB p.ep) &&& bbOfPiece p.board (mkPiece p.side PAWN)) ≠ 0
+    · rw [if_pos hx, if_pos (hcl.1 hx)]
+      simp [W_OO, W_OOO, B_OO, B_OOO, fileOf]
+    · have : ¬ Spec.polyEpApplies ⟨p.board, p.side, 0, p.ep, 0, 1⟩ = true := fun h => hx (hcl.2 h)
+      rw [if_neg hx, if_neg this]
+      simp [W_OO, W_OOO, B_OO, B_OOO]
 
 end Chess.Props
